@@ -144,6 +144,7 @@ def probes(r, fmt, tier):
         if ft in (CHR, BLK):
             kw["rdev"] = mkdev(4, 5)
         P.append(("filetype", nm, X(**kw), False))
+    P.append(("filetype", "sock-longname", X(path=deep(130), mode=SOCK | 0o755, size=0, body=b""), False))
     for maj, mnr in [(4, 5), (0o777777, 1), (0o1000000, 1), (0o7777777, 1), (0o10000000, 1), (1, 0o777777), (1, 0o1000000),
                      (1, 0o7777777), (1, 0o10000000), (255, 255), (256, 256), (4095, 1), (4096, 1), (2**32 - 1, 2**32 - 1),
                      (1, 65535), (1, 65536), (0, 0)]:
@@ -296,6 +297,27 @@ def neighbours_intact(fmt, rd, names):
         return "reading the archive back ends with status %d (%s) instead of EOF" % (rd[3], rd[4].decode("latin1")[:80])
     return None
 
+DEV_LIMIT = {"odc": 0o777777, "bin": 65535, "pwb": 65535}
+
+def value_class(fmt, field, sup, meta):
+    """the residual, recorded cases are identified by the class of the failing value; any other failing value of the
+    same field keeps the plain key"""
+    if field in ("uid", "gid") and sup[field] == 2**63 - 1:
+        return "int64max"
+    if field == "size" and (sup["size"] or 0) >= 2**60:
+        return "ge-2^60"
+    if field == "mtime" and sup["mtime"] and sup["mtime"][0] == -1:
+        return "minus1"
+    if field == "dev" and sup["dev"] is not None and fmt in DEV_LIMIT and sup["dev"] > DEV_LIMIT[fmt]:
+        return "overflow"
+    if field == "filetype" and meta["desc"] == "none":
+        return "none"
+    return None
+
+def field_key(fmt, field, sup, meta):
+    c = value_class(fmt, field, sup, meta)
+    return "C10:%s:%s%s" % (fmt, field, (":" + c) if c else "")
+
 def oracle_one(meta, cv, iv):
     """-> None | (key, description)"""
     fmt, field = meta["fmt"], meta["field"]
@@ -344,7 +366,7 @@ def oracle_one(meta, cv, iv):
                       and not want.startswith((norm_path(un1(e[RB["pathname"]]), fmt) or b"") + b"/")]
             rx = others[0] if others else None
     if rx is None:
-        return ("C10:%s:%s" % (fmt, field),
+        return (field_key(fmt, field, sup, meta),
                 "%s: entry with %s=%s accepted with ARCHIVE_OK but it is missing from the archive read back" % (fmt, field, meta["desc"]))
     d = field_equal(field, sup, rx, fmt)
     if d is None and not meta["header_only"] and fmt not in NO_BODY and (sup["mode"] & IFMT) == REG \
@@ -354,7 +376,7 @@ def oracle_one(meta, cv, iv):
         if rx[RB["dstatus"]] != 0 or got[:len(want)] != want:
             d = "the body read back is %r... (status %d), written %r..." % (got[:12], rx[RB["dstatus"]], want[:12])
     if d:
-        return ("C10:%s:%s" % (fmt, field),
+        return (field_key(fmt, field, sup, meta),
                 "%s: archive_write_header returned ARCHIVE_OK for %s=%s but %s" % (fmt, field, meta["desc"], d))
     return None
 
@@ -363,7 +385,7 @@ def project_impl(iv):
     w = iv[0]
     return [[[e[0], e[2], e[3], e[4], e[5]] for e in w[1]], w[2], w[3], iv[1]]
 
-def run_resuming(rep, name, exe, lines, metas, env=None, timeout=900, pid="C10"):
+def run_resuming(rep, name, exe, lines, metas, env=None, timeout=300, pid="C10"):
     """run the harness over all case lines; when it dies on a case (sanitizer abort, crash, hang) record that
     case as a violation of its own and resume behind it.  Returns a list with one output line or None per case."""
     out = [None] * len(lines)
@@ -499,11 +521,16 @@ def num_cases(r, n):
     return cases
 
 def big_stack():
-    """the extracted model recurses over lists as long as the longest pathname (262143 bytes)"""
+    """the extracted model recurses over lists as long as the longest pathname (262143 bytes); a writer that loops
+    while filling its temporary file must not fill the disk: 1 GiB per file for every child process"""
     import resource
     soft, hard = resource.getrlimit(resource.RLIMIT_STACK)
     try:
         resource.setrlimit(resource.RLIMIT_STACK, (hard, hard))
+    except Exception:
+        pass
+    try:
+        resource.setrlimit(resource.RLIMIT_FSIZE, (1 << 30, resource.getrlimit(resource.RLIMIT_FSIZE)[1]))
     except Exception:
         pass
 
